@@ -281,6 +281,11 @@ def main(argv=None):
     print(f'KNOWN-FINDING: property={pid} {sig}: {k.get("what", "")} [{obs}]')
 
   rc = 0
+  # an operation outcome that can only come from the harness itself (never from the library under test) is a harness error
+  for k, v in list(ctx.stats.items()):
+    if k.rsplit(':', 1)[-1] in ('RecursionError', 'NameError', 'UnboundLocalError', 'ImportError') and k != 'HARNESS_ERROR':
+      ctx.stats['HARNESS_ERROR'] = ctx.stats.get('HARNESS_ERROR', 0) + v
+      ctx.extra.setdefault('harness_errors', []).insert(0, dict(item=f'{v} operations ended with {k}', tb='(outcome class that only the harness can produce)'))
   if ctx.stats.get('HARNESS_ERROR'):
     print(f'HARNESS-ERROR property={pid} count={ctx.stats["HARNESS_ERROR"]}', file=sys.stderr)
     for e in ctx.extra.get('harness_errors', [])[:3]:
